@@ -534,3 +534,734 @@ Proof.
     rewrite ms_clear_hidden by (now destruct (ms_target (s_mp s))).
     split; [reflexivity|split; [apply Hz|reflexivity]].
 Qed.
+
+(* ------------------------------------------------------------------ no op creates a terminal target *)
+Definition T (t t' : target) : Prop := t' = t \/ (is_term t = true /\ is_term t' = true).
+Definition tgt_le (s s' : sys) : Prop :=
+  (forall j, T (b_target (get_bar s j)) (b_target (get_bar s' j))) /\
+  is_term (ms_target (s_mp s')) = is_term (ms_target (s_mp s)).
+
+Lemma T_refl t : T t t. Proof. now left. Qed.
+Lemma T_trans a b c : T a b -> T b c -> T a c.
+Proof.
+  intros [->|[Ha Hb]] [->|[Hb' Hc]]; try (now left); try (right; split; assumption).
+Qed.
+Lemma tgt_le_refl s : tgt_le s s. Proof. split; [intros; apply T_refl|reflexivity]. Qed.
+Lemma tgt_le_trans a b c : tgt_le a b -> tgt_le b c -> tgt_le a c.
+Proof.
+  intros [H1 K1] [H2 K2]. split; [intros j; eapply T_trans; [apply H1|apply H2]|congruence].
+Qed.
+
+Lemma get_bar_upd_other s b f j : j <> b -> get_bar (upd_bar s b f) j = get_bar s j.
+Proof.
+  intros Hne. unfold get_bar, upd_bar, nthN; cbn. apply nth_updN_other. lia.
+Qed.
+Lemma get_bar_upd_same s b f :
+  get_bar (upd_bar s b f) b
+  = if (N.to_nat b <? length (s_bars s))%nat then f (get_bar s b) else get_bar s b.
+Proof.
+  unfold get_bar, upd_bar, nthN, set_s_bars; cbn [s_bars]. rewrite nth_updN_same.
+  destruct (N.to_nat b <? length (s_bars s))%nat eqn:E; [reflexivity|].
+  apply Nat.ltb_ge in E. now rewrite nth_overflow by exact E.
+Qed.
+
+Lemma tgt_le_upd_at s b f :
+  T (b_target (get_bar s b)) (b_target (f (get_bar s b))) -> tgt_le s (upd_bar s b f).
+Proof.
+  intros HT. split; [|reflexivity]. intros j. destruct (N.eq_dec j b) as [->|Hne].
+  - rewrite get_bar_upd_same. destruct (_ <? _)%nat; [exact HT|apply T_refl].
+  - rewrite get_bar_upd_other by exact Hne. apply T_refl.
+Qed.
+
+Lemma tgt_le_upd_keep s b f :
+  (forall x, b_target (f x) = b_target x) -> tgt_le s (upd_bar s b f).
+Proof. intros Hf. apply tgt_le_upd_at. rewrite Hf. apply T_refl. Qed.
+
+Lemma tgt_le_mp_calls s m c :
+  is_term (ms_target m) = is_term (ms_target (s_mp s)) -> tgt_le s (set_s_calls (set_s_mp s m) c).
+Proof. intros Hk. split; [intros j; apply T_refl|exact Hk]. Qed.
+
+Lemma fold_remove_target zs : forall m, ms_target (fold_left ms_remove_idx zs m) = ms_target m.
+Proof.
+  induction zs as [|z r IH]; intros m; cbn [fold_left]; [reflexivity|].
+  rewrite IH. apply ms_remove_idx_target.
+Qed.
+
+Lemma term_draw_kind W H fails tg ls c :
+  forall tg' e c' ok, term_draw W H fails tg ls c = (tg', e, c', ok) ->
+  tt_rl tg' = tt_rl tg /\ tt_align tg' = tt_align tg.
+Proof.
+  intros tg' e c' ok. unfold term_draw.
+  destruct (draw_to_term ls (tt_n tg) (tt_align tg) (tt_below tg) W H) as [[ops n'] below'].
+  destruct (emit fails c ops) as [[e0 c0] ok0]. intros Heq; inversion Heq; subst. split; reflexivity.
+Qed.
+
+Lemma ms_draw_kind W H fails m force extra now c :
+  is_term (ms_target (fst (fst (fst (ms_draw W H fails m force extra now c))))) = is_term (ms_target m).
+Proof.
+  unfold ms_draw. destruct (ms_target m) as [|tg|i] eqn:Et; cbn [fst]; try (rewrite Et; reflexivity).
+  match goal with |- context [if ?c then (tt_adjust_clear tg ?z, 0) else (tg, ?z')] =>
+    destruct c end.
+  all: match goal with |- context [tt_allow ?t ?f ?n] => destruct (tt_allow t f n) as [a tg2] end;
+    destruct a; cbn [negb fst]; try reflexivity;
+    match goal with |- context [term_draw ?W0 ?H0 ?f0 ?t ?l ?c0] =>
+      destruct (term_draw W0 H0 f0 t l c0) as [[[tg3 e] c'] ok] end; cbn [fst].
+  - rewrite fold_remove_target. reflexivity.
+  - cbn [set_ms_zombie_lines set_ms_target ms_target]. rewrite fold_remove_target. reflexivity.
+Qed.
+
+Lemma ms_clear_kind W H fails m c :
+  is_term (ms_target (fst (fst (fst (ms_clear W H fails m c))))) = is_term (ms_target m).
+Proof.
+  unfold ms_clear. destruct (ms_target m) as [|tg|i] eqn:Et; cbn [fst]; try (rewrite Et; reflexivity).
+  destruct (term_draw W H fails _ [] c) as [[[tg2 e] c'] ok]. reflexivity.
+Qed.
+
+Lemma ms_suspend_kind W H fails m ws now c :
+  is_term (ms_target (fst (fst (ms_suspend W H fails m ws now c)))) = is_term (ms_target m).
+Proof.
+  unfold ms_suspend. pose proof (ms_clear_kind W H fails m c) as Hc.
+  destruct (ms_clear W H fails m c) as [[[m1 e1] c1] ok1]. cbn [fst] in Hc.
+  destruct (emit_each fails c1 (map TLine ws)) as [e2 c2].
+  match goal with |- context [ms_draw W H fails ?mm true None now c2] =>
+    pose proof (ms_draw_kind W H fails mm true None now c2) as Hd;
+    destruct (ms_draw W H fails mm true None now c2) as [[[m3 e3] c3] ok3] end.
+  cbn [fst] in *. rewrite Hd. cbn [ms_target set_ms_target]. rewrite <- Hc.
+  destruct (ms_target m1); reflexivity.
+Qed.
+
+Lemma ms_mark_zombie_kind W m idx :
+  is_term (ms_target (ms_mark_zombie W m idx)) = is_term (ms_target m).
+Proof.
+  unfold ms_mark_zombie. destruct (ms_order m) as [|first r]; [reflexivity|].
+  destruct (negb (idx =? first)); [reflexivity|].
+  rewrite ms_remove_idx_target. cbn [ms_target set_ms_target].
+  unfold target_adjust_keep. destruct (ms_target m); reflexivity.
+Qed.
+
+Lemma bar_draw_tgt W H fails s b force now : tgt_le s (fst (bar_draw W H fails s b force now)).
+Proof.
+  unfold bar_draw. destruct (b_target (get_bar s b)) as [|tg|idx] eqn:Et.
+  - apply tgt_le_refl.
+  - destruct (tt_allow tg _ now) as [a tg1]. destruct a; cbn [negb].
+    + destruct (term_draw W H fails tg1 _ _) as [[[tg2 e] c'] ok]. cbn [fst].
+      eapply tgt_le_trans; [apply (tgt_le_upd_at s b (fun x => set_b_target x (TTerm tg2)))|].
+      * rewrite Et. right. split; reflexivity.
+      * split; [intros j; apply T_refl|reflexivity].
+    + cbn [fst]. apply tgt_le_upd_at. rewrite Et. right. split; reflexivity.
+  - match goal with |- context [ms_draw W H fails ?mm ?f None now ?c] =>
+      pose proof (ms_draw_kind W H fails mm f None now c) as Hd;
+      destruct (ms_draw W H fails mm f None now c) as [[[m2 e] c'] ok] end.
+    cbn [fst] in *. apply tgt_le_mp_calls. exact Hd.
+Qed.
+
+Lemma bar_println_tgt W H fails s b msg now : tgt_le s (fst (bar_println W H fails s b msg now)).
+Proof.
+  unfold bar_println. destruct (b_target (get_bar s b)) as [|tg|idx] eqn:Et.
+  - apply tgt_le_refl.
+  - destruct (term_draw W H fails tg _ _) as [[[tg2 e] c'] ok]. cbn [fst].
+    eapply tgt_le_trans; [apply (tgt_le_upd_at s b (fun x => set_b_target x (TTerm tg2)))|].
+    + rewrite Et. right. split; reflexivity.
+    + split; [intros j; apply T_refl|reflexivity].
+  - match goal with |- context [ms_draw W H fails ?mm ?f None now ?c] =>
+      pose proof (ms_draw_kind W H fails mm f None now c) as Hd;
+      destruct (ms_draw W H fails mm f None now c) as [[[m2 e] c'] ok] end.
+    cbn [fst] in *. apply tgt_le_mp_calls. exact Hd.
+Qed.
+
+Lemma bar_suspend_tgt W H fails s b ws now : tgt_le s (fst (bar_suspend W H fails s b ws now)).
+Proof.
+  unfold bar_suspend. destruct (b_target (get_bar s b)) as [|tg|idx] eqn:Et.
+  - destruct (emit_each fails _ _) as [e c']. cbn [fst]. split; [intros j; apply T_refl|reflexivity].
+  - destruct (term_draw W H fails tg [] _) as [[[tg1 e1] c1] ok1].
+    destruct (emit_each fails c1 _) as [e2 c2].
+    match goal with |- context [bar_draw W H fails ?s1 b true now] =>
+      pose proof (bar_draw_tgt W H fails s1 b true now) as Hd;
+      destruct (bar_draw W H fails s1 b true now) as [s2 e3] end.
+    cbn [fst] in *. eapply tgt_le_trans; [|exact Hd].
+    eapply tgt_le_trans; [apply (tgt_le_upd_at s b (fun x => set_b_target x (TTerm tg1)))|].
+    + rewrite Et. right. split; reflexivity.
+    + split; [intros j; apply T_refl|reflexivity].
+  - pose proof (ms_suspend_kind W H fails (s_mp s) ws now (s_calls s)) as Hk.
+    destruct (ms_suspend W H fails _ ws now _) as [[m2 e] c']. cbn [fst] in *.
+    apply tgt_le_mp_calls. exact Hk.
+Qed.
+
+Lemma bar_finish_tgt W H fails s b k now : tgt_le s (fst (bar_finish W H fails s b k now)).
+Proof.
+  rewrite bar_finish_eq. eapply tgt_le_trans; [|apply bar_draw_tgt].
+  apply tgt_le_upd_keep. apply final_of_target.
+Qed.
+
+Lemma mark_zombie_tgt W s b : tgt_le s (mark_zombie W s b).
+Proof.
+  unfold mark_zombie. destruct (b_target (get_bar s b)); try apply tgt_le_refl.
+  split; [intros j; apply T_refl|]. cbn [s_mp set_s_mp]. apply ms_mark_zombie_kind.
+Qed.
+
+Lemma bar_drop_tgt W H fails s b now : tgt_le s (fst (bar_drop W H fails s b now)).
+Proof.
+  unfold bar_drop. destruct (finished (get_bar s b)).
+  - cbn [fst]. eapply tgt_le_trans; [apply mark_zombie_tgt|]. now apply tgt_le_upd_keep.
+  - pose proof (bar_finish_tgt W H fails s b (b_on_finish (get_bar s b)) now) as Hf.
+    destruct (bar_finish W H fails s b (b_on_finish (get_bar s b)) now) as [s1 e]. cbn [fst] in *.
+    eapply tgt_le_trans; [exact Hf|]. eapply tgt_le_trans; [apply mark_zombie_tgt|].
+    now apply tgt_le_upd_keep.
+Qed.
+
+Lemma bar_pos_update_tgt W H fails s b f now : tgt_le s (fst (bar_pos_update W H fails s b f now)).
+Proof.
+  unfold bar_pos_update. destruct (ap_allow _ now) as [a ap']. destruct a.
+  - unfold bar_tick. rewrite !upd_bar_upd_bar. eapply tgt_le_trans; [|apply bar_draw_tgt].
+    now apply tgt_le_upd_keep.
+  - cbn [fst]. rewrite upd_bar_upd_bar. now apply tgt_le_upd_keep.
+Qed.
+
+Lemma bar_set_target_tgt W H fails s b t now :
+  let s' := fst (bar_set_target W H fails s b t now) in
+  is_term (ms_target (s_mp s')) = is_term (ms_target (s_mp s)) /\
+  forall j, T (b_target (get_bar s j)) (b_target (get_bar s' j)) \/ (j = b /\ b_target (get_bar s' j) = t).
+Proof.
+  unfold bar_set_target.
+  assert (Hgen : forall s1, tgt_le s s1 ->
+     is_term (ms_target (s_mp (upd_bar s1 b (fun x => set_b_target x t)))) = is_term (ms_target (s_mp s)) /\
+     forall j, T (b_target (get_bar s j)) (b_target (get_bar (upd_bar s1 b (fun x => set_b_target x t)) j))
+               \/ (j = b /\ b_target (get_bar (upd_bar s1 b (fun x => set_b_target x t)) j) = t)).
+  { intros s1 [Hj Hk]. split; [exact Hk|]. intros j. destruct (N.eq_dec j b) as [->|Hne].
+    - rewrite get_bar_upd_same. destruct (_ <? _)%nat; [right; split; reflexivity|left; apply Hj].
+    - rewrite get_bar_upd_other by exact Hne. left. apply Hj. }
+  destruct (b_target (get_bar s b)) as [|tg|idx0]; cbn [fst].
+  - apply Hgen, tgt_le_refl.
+  - apply Hgen, tgt_le_refl.
+  - match goal with |- context [ms_draw W H fails ?mm true None now ?c] =>
+      pose proof (ms_draw_kind W H fails mm true None now c) as Hd;
+      destruct (ms_draw W H fails mm true None now c) as [[[m2 e] c'] ok] end.
+    cbn [fst] in *. apply Hgen. apply tgt_le_mp_calls. exact Hd.
+Qed.
+
+(** target kinds along one call: the MultiProgress' own target keeps its kind; a bar's target
+    stays what it is (a terminal target only changes its counters), except that
+    MultiProgress::remove hides the bar and add/insert attaches it to the MultiProgress. *)
+Theorem step_targets W H fails s now o :
+  let s' := fst (fst (step W H fails s now o)) in
+  is_term (ms_target (s_mp s')) = is_term (ms_target (s_mp s)) /\
+  forall j, T (b_target (get_bar s j)) (b_target (get_bar s' j))
+            \/ (o = ORemove j /\ b_target (get_bar s' j) = THidden)
+            \/ (exists l idx, o = OInsert l j /\ b_target (get_bar s' j) = TMulti idx).
+Proof.
+  assert (Hle : forall s', tgt_le s s' ->
+    is_term (ms_target (s_mp s')) = is_term (ms_target (s_mp s)) /\
+    forall j, T (b_target (get_bar s j)) (b_target (get_bar s' j))
+            \/ (o = ORemove j /\ b_target (get_bar s' j) = THidden)
+            \/ (exists l idx, o = OInsert l j /\ b_target (get_bar s' j) = TMulti idx)).
+  { intros s' [Hj Hk]. split; [exact Hk|]. intros j. left. apply Hj. }
+  destruct o; cbn [step fst snd];
+    try (lazymatch goal with
+         | |- context [ms_insert] => fail
+         | |- context [ms_remove_idx] => fail
+         | _ => apply Hle end);
+    try apply tgt_le_refl;
+    try (eapply tgt_le_trans; [|apply bar_draw_tgt]; now apply tgt_le_upd_keep);
+    try (now apply tgt_le_upd_keep);
+    try apply bar_pos_update_tgt; try apply bar_finish_tgt; try apply bar_draw_tgt.
+  - apply bar_println_tgt.
+  - apply bar_suspend_tgt.
+  - apply bar_drop_tgt.
+  - (* OInsert *)
+    match goal with |- context [match ?X with Some l => ms_insert (s_mp s) l | None => None end] =>
+      destruct X as [l|] end; [|apply Hle, tgt_le_refl].
+    destruct (ms_insert (s_mp s) l) as [[m1 idx]|] eqn:Ei; [|apply Hle, tgt_le_refl].
+    cbn [fst].
+    destruct (bar_set_target_tgt W H fails (set_s_mp s m1) b (TMulti idx) now) as [Hk Hj].
+    cbn [s_mp set_s_mp] in Hk. rewrite (ms_insert_target _ _ _ _ Ei) in Hk.
+    split; [exact Hk|]. intros j. destruct (Hj j) as [HT|[-> Ht]].
+    + left. exact HT.
+    + right. right. exists loc, idx. split; [reflexivity|exact Ht].
+  - (* ORemove *)
+    destruct (b_target (get_bar s b)) as [|tg|idx] eqn:Et; try (apply Hle, tgt_le_refl).
+    match goal with |- context [ms_draw W H fails ?mm true None now ?c] =>
+      pose proof (ms_draw_kind W H fails mm true None now c) as Hd;
+      destruct (ms_draw W H fails mm true None now c) as [[[m2 e] c'] ok] end.
+    cbn [fst s_mp set_s_mp set_s_calls upd_bar set_s_bars] in *.
+    rewrite ms_remove_idx_target in Hd. split; [exact Hd|].
+    intros j.
+    change (get_bar (set_s_calls (set_s_mp (upd_bar s b (fun x => set_b_target x THidden)) m2) c') j)
+      with (get_bar (upd_bar s b (fun x => set_b_target x THidden)) j).
+    destruct (N.eq_dec j b) as [->|Hne].
+    + rewrite get_bar_upd_same. destruct (_ <? _)%nat.
+      * right. left. split; reflexivity.
+      * left. apply T_refl.
+    + rewrite get_bar_upd_other by exact Hne. left. apply T_refl.
+  - (* OMPrintln *)
+    match goal with |- context [ms_draw W H fails ?mm true ?ex now ?c] =>
+      pose proof (ms_draw_kind W H fails mm true ex now c) as Hd;
+      destruct (ms_draw W H fails mm true ex now c) as [[[m2 e] c'] ok] end.
+    cbn [fst] in *. apply tgt_le_mp_calls. exact Hd.
+  - pose proof (ms_suspend_kind W H fails (s_mp s) ws now (s_calls s)) as Hk.
+    destruct (ms_suspend W H fails _ ws now _) as [[m2 e] c']. cbn [fst] in *.
+    apply tgt_le_mp_calls. exact Hk.
+  - pose proof (ms_clear_kind W H fails (s_mp s) (s_calls s)) as Hk.
+    destruct (ms_clear W H fails _ _) as [[[m2 e] c'] ok]. cbn [fst] in *.
+    apply tgt_le_mp_calls. exact Hk.
+  - split; [intros j; apply T_refl|reflexivity].
+Qed.
+
+Lemma all_hidden_bar s j : all_hidden s -> bar_hidden s j = true.
+Proof.
+  intros [Hm Hb]. unfold bar_hidden, get_bar, nthN.
+  destruct (Nat.lt_ge_cases (N.to_nat j) (length (s_bars s))) as [Hlt|Hge].
+  - rewrite Forall_forall in Hb. specialize (Hb _ (nth_In _ bar_default Hlt)).
+    destruct (b_target (nth (N.to_nat j) (s_bars s) bar_default)); [reflexivity|discriminate|exact Hm].
+  - rewrite nth_overflow by exact Hge. reflexivity.
+Qed.
+
+Lemma all_hidden_subject s o : all_hidden s -> subject_hidden s o = true.
+Proof.
+  intros Hh. unfold subject_hidden. destruct (op_bar o); [now apply all_hidden_bar|apply Hh].
+Qed.
+
+Lemma step_length W H fails s now o :
+  length (bars_logic (fst (fst (step W H fails s now o)))) = length (bars_logic s).
+Proof.
+  rewrite step_logic. unfold lstep. destruct (op_bar o); [apply updN_length|reflexivity].
+Qed.
+
+(** a hidden bar stays hidden until it is added to a MultiProgress (which may be visible) *)
+Theorem hidden_preserved W H fails s now o j :
+  bar_hidden s j = true -> (forall l, o <> OInsert l j) ->
+  bar_hidden (fst (fst (step W H fails s now o))) j = true.
+Proof.
+  intros Hh Hni. destruct (step_targets W H fails s now o) as [Hk Hj].
+  cbv zeta in *. unfold bar_hidden in *.
+  destruct (Hj j) as [[Heq|[Ht _]]|[[_ Hr]|[l [idx [Ho _]]]]].
+  - rewrite Heq. destruct (b_target (get_bar s j)); [reflexivity|discriminate|]. now rewrite Hk.
+  - destruct (b_target (get_bar s j)); discriminate.
+  - now rewrite Hr.
+  - exfalso. exact (Hni l Ho).
+Qed.
+
+(** ... and a system in which nothing can draw stays one: no call attaches a terminal *)
+Theorem all_hidden_preserved W H fails s now o :
+  all_hidden s -> all_hidden (fst (fst (step W H fails s now o))).
+Proof.
+  intros Hh. destruct (step_targets W H fails s now o) as [Hk Hj]. cbv zeta in *.
+  split; [unfold mp_hidden; rewrite Hk; apply Hh|].
+  apply Forall_forall. intros x Hx. destruct (In_nth _ _ bar_default Hx) as [i [Hi Hn]].
+  pose proof (all_hidden_bar s (N.of_nat i) Hh) as Hb. unfold bar_hidden in Hb.
+  specialize (Hj (N.of_nat i)). unfold get_bar, nthN in Hj, Hb. rewrite Nat2N.id in Hj, Hb.
+  rewrite Hn in Hj.
+  destruct Hj as [[Heq|[Ht _]]|[[_ Hr]|[l [idx [_ Hr]]]]].
+  - rewrite Heq. destruct (b_target (nth i (s_bars s) bar_default)); [reflexivity|discriminate|reflexivity].
+  - destruct (b_target (nth i (s_bars s) bar_default)); discriminate.
+  - now rewrite Hr.
+  - now rewrite Hr.
+Qed.
+
+(** C06_silent over histories: from a state in which every target is hidden, a history whose
+    suspend closures write nothing themselves emits no TermLike call at all, the call counter
+    does not move, and the system is still all-hidden. *)
+Theorem run_all_hidden_silent W H fails ops : forall s,
+  all_hidden s ->
+  Forall (fun to => closure_writes (snd to) = []) ops ->
+  snd (run W H fails s ops) = [] /\
+  s_calls (fst (run W H fails s ops)) = s_calls s /\
+  all_hidden (fst (run W H fails s ops)).
+Proof.
+  induction ops as [|[now o] r IH]; intros s Hh Hcl; cbn [run].
+  - repeat split; try reflexivity; apply Hh.
+  - inversion Hcl as [|? ? Ho Hr]; subst. cbn [snd] in Ho.
+    destruct (step_silent W H fails s now o (all_hidden_subject s o Hh)) as (He & Hc & _).
+    pose proof (all_hidden_preserved W H fails s now o Hh) as Hp.
+    destruct (step W H fails s now o) as [[s1 e] ok]. cbn [fst snd] in *.
+    destruct (IH s1 Hp Hr) as (He2 & Hc2 & Hh2).
+    destruct (run W H fails s1 r) as [s2 e2]. cbn [fst snd] in *.
+    rewrite Ho in He, Hc. cbn in He, Hc. subst e e2.
+    split; [reflexivity|]. split; [rewrite Hc2, Hc; lia|exact Hh2].
+Qed.
+
+(** the general form (closures may write): every step's calls are exactly what its closure
+    wrote itself *)
+Theorem run_all_hidden_steps W H fails ops : forall s,
+  all_hidden s ->
+  Forall (fun '(s0, o, e) => e = fst (emit_each fails (s_calls s0) (closure_writes o)))
+         (run_steps W H fails s ops).
+Proof.
+  induction ops as [|[now o] r IH]; intros s Hh; cbn [run_steps]; [constructor|].
+  destruct (step_silent W H fails s now o (all_hidden_subject s o Hh)) as (He & _ & _).
+  pose proof (all_hidden_preserved W H fails s now o Hh) as Hp.
+  destruct (step W H fails s now o) as [[s1 e] ok]. cbn [fst snd] in *.
+  constructor; [exact He|apply IH; exact Hp].
+Qed.
+
+(** the mixed statement: a hidden bar next to visible ones never contributes a call, for as
+    long as it is not added to a MultiProgress *)
+Theorem hidden_bar_never_draws W H fails b ops : forall s,
+  bar_hidden s b = true ->
+  Forall (fun to => forall l, snd to <> OInsert l b) ops ->
+  Forall (fun '(s0, o, e) => op_bar o = Some b ->
+            e = fst (emit_each fails (s_calls s0) (closure_writes o)))
+         (run_steps W H fails s ops).
+Proof.
+  induction ops as [|[now o] r IH]; intros s Hh Hni; cbn [run_steps]; [constructor|].
+  inversion Hni as [|? ? Ho Hr]; subst. cbn [snd] in Ho.
+  pose proof (hidden_preserved W H fails s now o b Hh Ho) as Hp.
+  pose proof (step_silent W H fails s now o) as Hs.
+  destruct (step W H fails s now o) as [[s1 e] ok]. cbn [fst snd] in *.
+  constructor; [|apply IH; assumption].
+  intros Hb. apply Hs. unfold subject_hidden. now rewrite Hb.
+Qed.
+
+(* ================================================================== C18: reporting *)
+Lemma term_draw_emit W H fails tg ls c tg' e c' ok :
+  term_draw W H fails tg ls c = (tg', e, c', ok) ->
+  emit fails c (draw_calls ls (tt_n tg) (tt_align tg) (tt_below tg) W H) = (e, c', ok) /\
+  tg' = mktt (if ok then draw_n ls (tt_n tg) (tt_align tg) (tt_below tg) W H else tt_n tg)
+             (tt_rl tg) (tt_align tg)
+             (if ok then draw_below ls (tt_n tg) (tt_align tg) (tt_below tg) W H else tt_below tg).
+Proof.
+  unfold term_draw, draw_calls, draw_n, draw_below.
+  destruct (draw_to_term ls (tt_n tg) (tt_align tg) (tt_below tg) W H) as [[ops n'] below'].
+  cbn [fst snd]. destruct (emit fails c ops) as [[e0 c0] ok0].
+  intros Heq; inversion Heq; subst. split; reflexivity.
+Qed.
+
+Lemma term_draw_report W H fails tg ls c tg' e c' ok :
+  term_draw W H fails tg ls c = (tg', e, c', ok) ->
+  c <= c' /\ (ok = false <-> exists k, c <= k < c' /\ fails k = true).
+Proof.
+  intros Htd. destruct (term_draw_emit _ _ _ _ _ _ _ _ _ _ Htd) as [Hem _].
+  destruct (emit_spec _ _ _ _ _ _ Hem) as (Hle & _ & _ & Hiff & _). split; assumption.
+Qed.
+
+Lemma ms_draw_forced_report W H fails m extra now c m' e c' ok :
+  ms_draw W H fails m true extra now c = (m', e, c', ok) ->
+  c <= c' /\ (ok = false <-> exists k, c <= k < c' /\ fails k = true).
+Proof.
+  assert (Hnone : forall c0 : N, c0 <= c0 /\ (true = false <-> exists k, c0 <= k < c0 /\ fails k = true)).
+  { intros c0. split; [lia|]. split; [discriminate|]. intros [k [Hk _]]. lia. }
+  unfold ms_draw. destruct (ms_target m) as [|tg|i];
+    try (intros Heq; inversion Heq; subst; apply Hnone).
+  match goal with |- context [if ?cnd then (tt_adjust_clear tg ?z, 0) else (tg, ?z')] =>
+    destruct cnd end; cbn [orb tt_allow negb];
+  match goal with |- context [term_draw W H fails ?t ?l c] =>
+    destruct (term_draw W H fails t l c) as [[[tg3 e3] c3] ok3] eqn:Etd end;
+  intros Heq; inversion Heq; subst; exact (term_draw_report _ _ _ _ _ _ _ _ _ _ Etd).
+Qed.
+
+Lemma ms_clear_report W H fails m c m' e c' ok :
+  ms_clear W H fails m c = (m', e, c', ok) ->
+  c <= c' /\ (ok = false <-> exists k, c <= k < c' /\ fails k = true).
+Proof.
+  assert (Hnone : forall c0 : N, c0 <= c0 /\ (true = false <-> exists k, c0 <= k < c0 /\ fails k = true)).
+  { intros c0. split; [lia|]. split; [discriminate|]. intros [k [Hk _]]. lia. }
+  unfold ms_clear. destruct (ms_target m) as [|tg|i];
+    try (intros Heq; inversion Heq; subst; apply Hnone).
+  match goal with |- context [term_draw W H fails ?t ?l c] =>
+    destruct (term_draw W H fails t l c) as [[[tg3 e3] c3] ok3] eqn:Etd end.
+  intros Heq; inversion Heq; subst. exact (term_draw_report _ _ _ _ _ _ _ _ _ _ Etd).
+Qed.
+
+(** C18_reports: a call returns Err exactly when it is MultiProgress::println / clear and one of
+    the TermLike calls it made itself (numbers s_calls s .. s_calls s' - 1) failed; every other
+    call returns (): the io::Result of its draw is discarded. *)
+Theorem step_reports W H fails s now o :
+  let '(s', e, ok) := step W H fails s now o in
+  (ok = false <->
+   is_reporting o = true /\ exists k, s_calls s <= k < s_calls s' /\ fails k = true) /\
+  (is_reporting o = true -> s_calls s <= s_calls s').
+Proof.
+  assert (Hnr : forall s' : sys,
+    (true = false <-> false = true /\ exists k, s_calls s <= k < s_calls s' /\ fails k = true) /\
+    (false = true -> s_calls s <= s_calls s')).
+  { intros s'. split; [split; [discriminate|intros [Hf _]; discriminate]|discriminate]. }
+  destruct o; cbn [step is_reporting]; try apply Hnr.
+  - (* OInsert *)
+    match goal with |- context [match ?X with Some l => ms_insert (s_mp s) l | None => None end] =>
+      destruct X as [l|] end; [|apply Hnr].
+    destruct (ms_insert (s_mp s) l) as [[m1 idx]|]; [|apply Hnr]. cbn [fst snd]. apply Hnr.
+  - (* ORemove *)
+    destruct (b_target (get_bar s b)); try apply Hnr.
+    destruct (ms_draw W H fails _ true None now _) as [[[m2 e] c'] ok]. apply Hnr.
+  - (* OMPrintln *)
+    destruct (ms_draw W H fails (s_mp s) true _ now (s_calls s)) as [[[m2 e] c'] ok] eqn:Ed.
+    destruct (ms_draw_forced_report _ _ _ _ _ _ _ _ _ _ _ Ed) as [Hle Hiff].
+    cbn [s_calls set_s_calls]. split; [|intros _; exact Hle].
+    rewrite Hiff. split; [intros Hk; split; [reflexivity|exact Hk]|intros [_ Hk]; exact Hk].
+  - (* OMSuspend *)
+    destruct (ms_suspend W H fails (s_mp s) ws now (s_calls s)) as [[m2 e] c']. apply Hnr.
+  - (* OMClear *)
+    destruct (ms_clear W H fails (s_mp s) (s_calls s)) as [[[m2 e] c'] ok] eqn:Ed.
+    destruct (ms_clear_report _ _ _ _ _ _ _ _ _ Ed) as [Hle Hiff].
+    cbn [s_calls set_s_calls]. split; [|intros _; exact Hle].
+    rewrite Hiff. split; [intros Hk; split; [reflexivity|exact Hk]|intros [_ Hk]; exact Hk].
+Qed.
+
+(* ================================================================== C04: the final frame *)
+Lemma target_in_range s b : b_target (get_bar s b) <> THidden -> (N.to_nat b < length (s_bars s))%nat.
+Proof.
+  intros Hne. destruct (Nat.lt_ge_cases (N.to_nat b) (length (s_bars s))) as [Hlt|Hge]; [exact Hlt|].
+  exfalso. apply Hne. unfold get_bar, nthN. now rewrite nth_overflow by exact Hge.
+Qed.
+
+Lemma get_bar_upd_in s b f :
+  (N.to_nat b < length (s_bars s))%nat -> get_bar (upd_bar s b f) b = f (get_bar s b).
+Proof. intros Hlt. rewrite get_bar_upd_same. apply Nat.ltb_lt in Hlt. now rewrite Hlt. Qed.
+
+(** what a finish variant defines as the final state: position = length (when known) for the
+    finish family and unchanged for the abandon family, the supplied message if any, everything
+    else untouched, finished; the clearing variant shows nothing, the others the rendering of
+    that final state *)
+Lemma final_of_spec k x :
+  b_pos (final_of k x) = (if fin_is_finish k then match b_len x with Some l => l | None => b_pos x end
+                          else b_pos x) /\
+  b_msg (final_of k x) = (match fin_msg k with Some m => m | None => b_msg x end) /\
+  b_len (final_of k x) = b_len x /\ b_prefix (final_of k x) = b_prefix x /\
+  b_tmpl (final_of k x) = b_tmpl x /\ b_tick (final_of k x) = b_tick x /\
+  b_target (final_of k x) = b_target x /\ b_alive (final_of k x) = b_alive x /\
+  finished (final_of k x) = true /\
+  frame_of (final_of k x) = (match k with FAndClear => [] | _ => render (final_of k x) end).
+Proof. destruct k, x as [p [l|] tk st mg pf tm onf ap tg al]; cbn; repeat split. Qed.
+
+Lemma finished_set_target x t : finished (set_b_target x t) = finished x.
+Proof. reflexivity. Qed.
+Lemma render_parts_ext ps b b' :
+  (forall p, expand p b = expand p b') ->
+  forall cur acc, render_parts ps b cur acc = render_parts ps b' cur acc.
+Proof.
+  intros He. induction ps as [|p r IH]; intros cur acc; cbn [render_parts]; [reflexivity|].
+  destruct p; rewrite ?IH; try reflexivity; now rewrite He.
+Qed.
+Lemma frame_of_set_target x t : frame_of (set_b_target x t) = frame_of x.
+Proof.
+  unfold frame_of, render. change (b_status (set_b_target x t)) with (b_status x).
+  change (b_tmpl (set_b_target x t)) with (b_tmpl x).
+  destruct (b_status x); try reflexivity; apply render_parts_ext; intros p; destruct p; reflexivity.
+Qed.
+
+(* a forced, fault-free draw of a standalone bar *)
+Lemma bar_draw_forced_term W H s b tg now :
+  b_target (get_bar s b) = TTerm tg ->
+  let ls := frame_of (get_bar s b) in
+  let tg' := mktt (draw_n ls (tt_n tg) (tt_align tg) (tt_below tg) W H) (tt_rl tg) (tt_align tg)
+                  (draw_below ls (tt_n tg) (tt_align tg) (tt_below tg) W H) in
+  let calls := draw_calls ls (tt_n tg) (tt_align tg) (tt_below tg) W H in
+  bar_draw W H no_faults s b true now
+  = (set_s_calls (upd_bar s b (fun x => set_b_target x (TTerm tg'))) (s_calls s + N.of_nat (length calls)),
+     calls).
+Proof.
+  intros Ht. cbv zeta. unfold bar_draw. rewrite Ht. cbn [orb tt_allow negb].
+  destruct (term_draw W H no_faults tg (frame_of (get_bar s b)) (s_calls s)) as [[[tg2 e] c'] ok] eqn:Etd.
+  destruct (term_draw_emit _ _ _ _ _ _ _ _ _ _ Etd) as [Hem Htg].
+  rewrite emit_no_faults in Hem. inversion Hem; subst e c' ok. rewrite Htg. reflexivity.
+Qed.
+
+(** C04_final_frame, standalone bar: whatever the history left behind (any state [s], any
+    limiter state in [tg] and [b_ap], any time [now]), finish / finish_with_message /
+    finish_and_clear / abandon / abandon_with_message paint: the calls are exactly those of a
+    draw of the final state's frame. *)
+Theorem finish_paints_standalone W H s b tg k now :
+  b_target (get_bar s b) = TTerm tg ->
+  let fb := final_of k (get_bar s b) in
+  let ls := frame_of fb in
+  let calls := draw_calls ls (tt_n tg) (tt_align tg) (tt_below tg) W H in
+  let tg' := mktt (draw_n ls (tt_n tg) (tt_align tg) (tt_below tg) W H) (tt_rl tg) (tt_align tg)
+                  (draw_below ls (tt_n tg) (tt_align tg) (tt_below tg) W H) in
+  let '(s', e, ok) := step W H no_faults s now (OFinish b k) in
+  e = calls /\ ok = true /\
+  get_bar s' b = set_b_target fb (TTerm tg') /\
+  finished (get_bar s' b) = true /\
+  s_calls s' = s_calls s + N.of_nat (length calls) /\
+  s_mp s' = s_mp s /\ (forall j, j <> b -> get_bar s' j = get_bar s j).
+Proof.
+  intros Ht. cbv zeta. cbn [step]. rewrite bar_finish_eq.
+  assert (Hin : (N.to_nat b < length (s_bars s))%nat) by (apply target_in_range; rewrite Ht; discriminate).
+  assert (Hg : get_bar (upd_bar s b (final_of k)) b = final_of k (get_bar s b)) by now apply get_bar_upd_in.
+  assert (Ht' : b_target (get_bar (upd_bar s b (final_of k)) b) = TTerm tg)
+    by (rewrite Hg, final_of_target; exact Ht).
+  rewrite (bar_draw_forced_term W H _ b tg now Ht'). rewrite Hg. cbn [fst snd].
+  rewrite upd_bar_upd_bar.
+  split; [reflexivity|]. split; [reflexivity|].
+  split; [|split; [|split; [reflexivity|split; [reflexivity|]]]].
+  - change (get_bar (set_s_calls ?x _) b) with (get_bar x b). now rewrite get_bar_upd_in.
+  - change (get_bar (set_s_calls ?x _) b) with (get_bar x b). rewrite get_bar_upd_in by exact Hin.
+    rewrite finished_set_target. apply final_of_spec.
+  - intros j Hne. change (get_bar (set_s_calls ?x _) j) with (get_bar x j).
+    now apply get_bar_upd_other.
+Qed.
+
+(** finish_using_style() (and with it ProgressBarIter::next returning None on an unfinished
+    bar, src/iter.rs:120-130) is finish with the stored ProgressFinish *)
+Theorem finish_using_style_eq W H fails s b now :
+  step W H fails s now (OFinishUsingStyle b)
+  = step W H fails s now (OFinish b (b_on_finish (get_bar s b))).
+Proof. reflexivity. Qed.
+
+(** dropping the last handle of an unfinished bar: the same calls as finish_using_style, the
+    same final logic, and the bar is gone *)
+Theorem drop_unfinished_eq W H fails s b now :
+  finished (get_bar s b) = false ->
+  let '(s1, e1, _) := step W H fails s now (OFinishUsingStyle b) in
+  step W H fails s now (ODrop b)
+  = (upd_bar (mark_zombie W s1 b) b (fun x => set_b_alive x false), e1, true).
+Proof.
+  intros Hf. cbn [step]. unfold bar_drop. rewrite Hf.
+  destruct (bar_finish W H fails s b (b_on_finish (get_bar s b)) now) as [s1 e]. reflexivity.
+Qed.
+
+(** C04_drop_finished_silent: dropping an already finished bar makes no TermLike call; the
+    only state change is the handle going away plus, for a member of a MultiProgress, the slot
+    bookkeeping of mark_zombie *)
+Theorem drop_finished_silent W H fails s b now :
+  finished (get_bar s b) = true ->
+  step W H fails s now (ODrop b)
+  = (upd_bar (mark_zombie W s b) b (fun x => set_b_alive x false), [], true).
+Proof. intros Hf. cbn [step]. unfold bar_drop. rewrite Hf. reflexivity. Qed.
+
+Lemma mark_zombie_standalone W s b :
+  (forall idx, b_target (get_bar s b) <> TMulti idx) -> mark_zombie W s b = s.
+Proof.
+  intros Hn. unfold mark_zombie. destruct (b_target (get_bar s b)) as [| |idx]; try reflexivity.
+  exfalso. now apply (Hn idx).
+Qed.
+
+Lemma mark_zombie_member W s b idx :
+  b_target (get_bar s b) = TMulti idx -> mark_zombie W s b = set_s_mp s (ms_mark_zombie W (s_mp s) idx).
+Proof. intros Ht. unfold mark_zombie. now rewrite Ht. Qed.
+
+(* mark_zombie is pure bookkeeping: no line content changes, rows only move from "to be erased
+   by the next draw" (last_line_count) to "kept" (zombie_lines_count) *)
+Lemma ms_mark_zombie_spec W m idx :
+  let m' := ms_mark_zombie W m idx in
+  ms_orphans m' = ms_orphans m /\ ms_align m' = ms_align m /\
+  is_term (ms_target m') = is_term (ms_target m) /\
+  ms_zombie_lines m' + target_n (ms_target m') = ms_zombie_lines m + target_n (ms_target m) /\
+  (ms_order m' = ms_order m \/
+   ms_order m' = filter (fun x => negb (x =? idx)) (ms_order m)) /\
+  (forall j, j <> idx -> nthN (ms_members m') j member_default = nthN (ms_members m) j member_default).
+Proof.
+  cbv zeta. unfold ms_mark_zombie. destruct (ms_order m) as [|first r] eqn:Eo.
+  - rewrite Eo. repeat split; try reflexivity. now left.
+  - destruct (negb (idx =? first)) eqn:En.
+    + cbn [ms_orphans ms_align ms_target ms_zombie_lines ms_order ms_members set_ms_members].
+      rewrite Eo. repeat split; try reflexivity; [now left|].
+      intros j Hne. unfold nthN. apply nth_updN_other. lia.
+    + unfold ms_remove_idx.
+      set (lc := N.min _ (target_n (ms_target m))).
+      assert (Hlc : lc <= target_n (ms_target m)) by (unfold lc; lia).
+      assert (Hn : target_n (target_adjust_keep (ms_target m) lc) = target_n (ms_target m) - lc).
+      { destruct (ms_target m); cbn; try lia. }
+      assert (Hk : is_term (target_adjust_keep (ms_target m) lc) = is_term (ms_target m))
+        by (destruct (ms_target m); reflexivity).
+      destruct (memN idx _);
+        cbn [ms_orphans ms_align ms_target ms_zombie_lines ms_order ms_members
+             set_ms_members set_ms_target set_ms_zombie_lines set_ms_free set_ms_order];
+        rewrite ?Eo, ?Hn.
+      * repeat split; try reflexivity; try exact Hk; [lia|now left].
+      * repeat split; try reflexivity; try exact Hk; [lia|now right|].
+        intros j Hne. unfold nthN. apply nth_updN_other. lia.
+Qed.
+
+(* a forced, fault-free draw of the MultiProgress without extra lines *)
+Lemma ms_draw_forced_calls W H m tg now c :
+  ms_target m = TTerm tg ->
+  let n1 := match ms_orphans m with [] => tt_n tg | _ => tt_n tg + ms_zombie_lines m end in
+  let calls := draw_calls (ms_compose m) n1 (ms_align m) (tt_below tg) W H in
+  snd (fst (fst (ms_draw W H no_faults m true None now c))) = calls /\
+  snd (fst (ms_draw W H no_faults m true None now c)) = c + N.of_nat (length calls) /\
+  snd (ms_draw W H no_faults m true None now c) = true.
+Proof.
+  intros Ht. cbv zeta. unfold ms_draw. rewrite Ht. cbn [orb].
+  destruct (ms_orphans m) as [|o1 orest] eqn:Eo; cbn [negb orb tt_allow app].
+  - match goal with |- context [term_draw W H no_faults ?t ?l c] =>
+      destruct (term_draw W H no_faults t l c) as [[[tg3 e3] c3] ok3] eqn:Etd end.
+    destruct (term_draw_emit _ _ _ _ _ _ _ _ _ _ Etd) as [Hem _]. rewrite emit_no_faults in Hem.
+    inversion Hem; subst. cbn [fst snd tt_n tt_align tt_below].
+    unfold ms_compose. rewrite Eo. cbn [app]. repeat split.
+  - match goal with |- context [term_draw W H no_faults ?t ?l c] =>
+      destruct (term_draw W H no_faults t l c) as [[[tg3 e3] c3] ok3] eqn:Etd end.
+    destruct (term_draw_emit _ _ _ _ _ _ _ _ _ _ Etd) as [Hem _]. rewrite emit_no_faults in Hem.
+    inversion Hem; subst. cbn [fst snd tt_n tt_align tt_below tt_adjust_clear].
+    unfold ms_compose. rewrite Eo. repeat split.
+Qed.
+
+Lemma member_lines_store_same mems idx fr :
+  (N.to_nat idx < length mems)%nat ->
+  member_lines (updN mems (N.to_nat idx) (fun mem => mkmem (Some fr) (m_zombie mem))) idx = fr.
+Proof.
+  intros Hlt. unfold member_lines, nthN. rewrite nth_updN_same.
+  apply Nat.ltb_lt in Hlt. rewrite Hlt. reflexivity.
+Qed.
+Lemma member_lines_store_other mems idx f j :
+  j <> idx -> member_lines (updN mems (N.to_nat idx) f) j = member_lines mems j.
+Proof. intros Hne. unfold member_lines, nthN. rewrite nth_updN_other by lia. reflexivity. Qed.
+
+Lemma map_member_lines_other mems idx f l :
+  ~ In idx l -> map (member_lines (updN mems (N.to_nat idx) f)) l = map (member_lines mems) l.
+Proof.
+  intros Hn. apply map_ext_in. intros j Hj. apply member_lines_store_other. intros ->. now apply Hn.
+Qed.
+
+(** where the member's frame sits in the line list the MultiProgress draws: at the member's
+    place in the ordering, between the frames of the members before and after it *)
+Lemma compose_store m idx fr pre post :
+  (N.to_nat idx < length (ms_members m))%nat ->
+  ms_order m = pre ++ idx :: post -> ~ In idx pre -> ~ In idx post ->
+  ms_compose (ms_store m idx [] fr)
+  = ms_orphans m ++ concat (map (member_lines (ms_members m)) pre) ++ fr
+    ++ concat (map (member_lines (ms_members m)) post).
+Proof.
+  intros Hlt Ho Hpre Hpost. unfold ms_compose, ms_store.
+  cbn [ms_orphans ms_members ms_order set_ms_orphans set_ms_members].
+  rewrite app_nil_r, Ho, map_app, concat_app. cbn [map concat].
+  rewrite member_lines_store_same by exact Hlt.
+  rewrite !map_member_lines_other by assumption. reflexivity.
+Qed.
+
+(** C04_final_frame, member of a visible MultiProgress: the finish call paints - a forced draw
+    of the whole MultiProgress whose line list carries the final frame at the member's place *)
+Theorem finish_paints_member W H s b idx tg k now :
+  b_target (get_bar s b) = TMulti idx -> ms_target (s_mp s) = TTerm tg ->
+  let fb := final_of k (get_bar s b) in
+  let m1 := ms_store (s_mp s) idx [] (frame_of fb) in
+  let n1 := match ms_orphans (s_mp s) with [] => tt_n tg | _ => tt_n tg + ms_zombie_lines (s_mp s) end in
+  let calls := draw_calls (ms_compose m1) n1 (ms_align (s_mp s)) (tt_below tg) W H in
+  let '(s', e, ok) := step W H no_faults s now (OFinish b k) in
+  e = calls /\ ok = true /\ get_bar s' b = fb /\ finished (get_bar s' b) = true /\
+  s_calls s' = s_calls s + N.of_nat (length calls) /\
+  (forall j, j <> b -> get_bar s' j = get_bar s j).
+Proof.
+  intros Ht Hm. cbv zeta. cbn [step]. rewrite bar_finish_eq.
+  assert (Hin : (N.to_nat b < length (s_bars s))%nat) by (apply target_in_range; rewrite Ht; discriminate).
+  assert (Hg : get_bar (upd_bar s b (final_of k)) b = final_of k (get_bar s b)) by now apply get_bar_upd_in.
+  unfold bar_draw. rewrite Hg, final_of_target, Ht.
+  cbn [s_mp upd_bar set_s_bars s_calls]. unfold ms_width. rewrite Hm.
+  assert (Hfin : finished (final_of k (get_bar s b)) = true) by apply final_of_spec.
+  rewrite Hfin. cbn [orb].
+  set (m1 := ms_store (s_mp s) idx [] (frame_of (final_of k (get_bar s b)))).
+  assert (Hm1 : ms_target m1 = TTerm tg) by exact Hm.
+  destruct (ms_draw_forced_calls W H m1 tg now (s_calls s) Hm1) as (He & Hc & Hok).
+  destruct (ms_draw W H no_faults m1 true None now (s_calls s)) as [[[m2 e] c'] ok].
+  cbn [fst snd] in *. subst e c' ok.
+  assert (Hor : ms_orphans m1 = ms_orphans (s_mp s)) by (unfold m1, ms_store; cbn; apply app_nil_r).
+  assert (Hal : ms_align m1 = ms_align (s_mp s)) by reflexivity.
+  assert (Hz : ms_zombie_lines m1 = ms_zombie_lines (s_mp s)) by reflexivity.
+  rewrite Hor, Hal, Hz.
+  split; [reflexivity|]. split; [reflexivity|].
+  split; [exact Hg|]. split; [change (finished (get_bar (upd_bar s b (final_of k)) b) = true); now rewrite Hg|].
+  split; [reflexivity|].
+  intros j Hne. change (get_bar (upd_bar s b (final_of k)) j = get_bar s j). now apply get_bar_upd_other.
+Qed.
+
+(** the hidden twins of C06_equiv: hiding every target (standalone bars) or only the
+    MultiProgress' target (members) changes no getter, ever *)
+Theorem hidden_twins W H fails W2 H2 f2 s ops :
+  run_logics W H fails s ops = run_logics W2 H2 f2 (hide_all s) ops /\
+  run_logics W H fails s ops = run_logics W2 H2 f2 (hide_mp s) ops.
+Proof.
+  split; apply logic_simulation; [now rewrite hide_all_logic|now rewrite hide_mp_logic].
+Qed.
+
+(** C18_state: the logic after every op does not depend on the fault oracle *)
+Theorem faults_do_not_touch_logic W H fails s ops :
+  run_logics W H fails s ops = run_logics W H no_faults s ops.
+Proof. now apply logic_simulation. Qed.
